@@ -324,10 +324,10 @@ impl Harness for C20Harness {
 }
 
 pub fn harnesses(thorough: bool) -> Vec<(C20Harness, Vec<Bound>)> {
-    let t2: Vec<Bound> = (0..=4).map(Bound::total).collect();
+    let t2: Vec<Bound> = (0..=if thorough { 5 } else { 4 }).map(Bound::total).collect();
     let t3: Vec<Bound> = (0..=6).map(Bound::total).collect();
     let b = if thorough { t3.clone() } else { t2.clone() };
-    let tl: Vec<Bound> = (0..=if thorough { 4 } else { 3 }).map(Bound::total).collect();
+    let tl: Vec<Bound> = (0..=if thorough { 5 } else { 3 }).map(Bound::total).collect();
     let mut v = vec![
         (C20Harness::new("c20-cycleA+cycleB-N2", vec![Task::CycleA, Task::CycleB], 2), b.clone()),
         (C20Harness::new("c20-cycleA+cycleB+cycleC-N4", vec![Task::CycleA, Task::CycleB, Task::CycleC], 4), t2.clone()),
@@ -342,7 +342,7 @@ pub fn harnesses(thorough: bool) -> Vec<(C20Harness, Vec<Bound>)> {
     ];
     if thorough {
         v.push((C20Harness::new("c20-4tasks-N16", vec![Task::CycleA, Task::CycleB, Task::RegisterRead, Task::SdoRead], 16), t2.clone()));
-        v.push((C20Harness::new("c20-4tasks-N4", vec![Task::CycleA, Task::CycleC, Task::Status, Task::SdoWrite], 4), t2.clone()));
+        v.push((C20Harness::new("c20-4tasks-N8", vec![Task::CycleA, Task::CycleC, Task::Status, Task::SdoWrite], 8), t2.clone()));
         v.push((C20Harness::new("c20-late-3cycles-N4", vec![Task::CycleA, Task::CycleB, Task::CycleC], 4).late(), tl));
     }
     v
@@ -354,7 +354,7 @@ pub fn harness_by_label(label: &str) -> Option<Box<dyn Harness>> {
 
 pub fn c20(tier: &Tier) -> Result<i32, String> {
     let mut rep = Report::new("C20", "model_checking", tier);
-    rep.rule = "2..=4 cooperative tasks (process-data cycles of three groups, register reads, status, SDO read and SDO write on different SubDevices) on one MainDevice against a 6-device segment in 3 groups; at every step the explorer chooses which ready task is polled or which in-flight frame is delivered; stateless DFS with iterative deviation bounding from the FIFO schedule; every execution runs the real stack; each task's result is compared with the same task running alone on an identical segment; storage of 2, 4 or 16 frame slots; the 'late' harnesses add the choice 'a frame in flight is held past the deadline of its sender' (that operation may time out, nothing else may change and the late response must reach nobody); non-trivial = every execution (at least two tasks overlap)".into();
+    rep.rule = "2..=4 cooperative tasks (process-data cycles of three groups, register reads, status, SDO read and SDO write on different SubDevices) on one MainDevice against a 6-device segment in 3 groups; at every step the explorer chooses which ready task is polled or which in-flight frame is delivered; stateless DFS with iterative deviation bounding from the FIFO schedule; every execution runs the real stack; each task's result is compared with the same task running alone on an identical segment; storage of 2, 4, 8 or 16 frame slots (always at least as many as tasks; four tasks get 8 or 16); the 'late' harnesses add the choice 'a frame in flight is held past the deadline of its sender' (that operation may time out, nothing else may change and the late response must reach nobody); non-trivial = every execution (at least two tasks overlap)".into();
     rep.assumptions = vec![
         "schedules at await granularity (interleavings inside the PDU loop primitives are C01/C02/C06)".into(),
         "tasks are chosen to commute on device state; two tasks never use the same group's image".into(),
